@@ -71,3 +71,27 @@ Print Assumptions variants_axis_holds_every_record.
 Theorem translated_from_field_is_the_model : forall p f name, gen_from_field p f name = from_field p f name.
 Proof. exact translated_from_field_lemma. Qed.
 Print Assumptions translated_from_field_is_the_model.
+
+(* ... and VcfZarrSchema.generate itself -- the five fixed arrays with their dtypes / shapes / chunks / dimension names,
+   the three one-to-one fixed fields, one array per INFO field, one per FORMAT field other than GT, the genotype trio
+   with its ploidy -- as regenerated from the source on this run equals the model's generate; so the coherence
+   theorems hold OF THE TRANSLATED SOURCE: any two arrays of the schema it generates that share a dimension name
+   agree on its length, and every array has the variants axis first with one row per record *)
+Theorem translated_generate_is_the_model : forall p qual pos rlen infos formats gt,
+  gen_generate p qual pos rlen infos formats gt = generate p qual pos rlen infos formats gt.
+Proof. exact translated_generate_lemma. Qed.
+Print Assumptions translated_generate_is_the_model.
+
+Theorem translated_dims_coherent : forall p qual pos rlen infos formats gt specs a b d sa sb,
+  ids_unique (all_fields qual pos rlen infos formats) ->
+  gen_generate p qual pos rlen infos formats gt = Ok specs ->
+  In a specs -> In b specs ->
+  lookup_dim d (sp_dims a) (sp_shape a) = Some sa -> lookup_dim d (sp_dims b) (sp_shape b) = Some sb -> sa = sb.
+Proof. intros until sb. intros U G. rewrite translated_generate_lemma in G. exact (dims_coherent_lemma p qual pos rlen infos formats gt specs a b d sa sb U G). Qed.
+Print Assumptions translated_dims_coherent.
+
+Theorem translated_rows_cols : forall p qual pos rlen infos formats gt specs s,
+  gen_generate p qual pos rlen infos formats gt = Ok specs -> ids_unique (all_fields qual pos rlen infos formats) ->
+  In s specs -> hd_error (sp_dims s) = Some DVariants /\ hd_error (sp_shape s) = Some (g_m p).
+Proof. intros until s. intros G. rewrite translated_generate_lemma in G. exact (rows_cols_lemma p qual pos rlen infos formats gt specs s G). Qed.
+Print Assumptions translated_rows_cols.
